@@ -136,11 +136,16 @@ Definition desc_byte (d : N) (i : nat) : N := N.land (N.shiftr d (8 * N.of_nat i
 Definition desc_buffer (d : N) : N := N.land (N.shiftr d 64) 4294967295.
 Definition desc_offset (d : N) : N := N.land (N.shiftr d 96) 4294967295.
 
+(* comparisons are made in N before anything becomes a unary number (descriptors of corrupted
+   views carry lengths and offsets up to 2^32) *)
 Definition view_bytes (buffers : list (list N)) (d : N) : option bytes :=
-  let len := N.to_nat (desc_len d) in
-  if Nat.leb len 12 then Some (map (fun i => desc_byte d (4 + i)) (seq 0 len))
+  if (desc_len d <=? 12)%N then Some (map (fun i => desc_byte d (4 + i)) (seq 0 (N.to_nat (desc_len d))))
+  else if (N.of_nat (length buffers) <=? desc_buffer d)%N then None
   else match nth_error buffers (N.to_nat (desc_buffer d)) with
-       | Some buf => sub_list buf (N.to_nat (desc_offset d)) len
+       | Some buf =>
+         if (desc_offset d + desc_len d <=? N.of_nat (length buf))%N
+         then Some (firstn (N.to_nat (desc_len d)) (skipn (N.to_nat (desc_offset d)) buf))
+         else None
        | None => None
        end.
 
